@@ -12,6 +12,8 @@
 (*               kind  kind[i] = "c" (constant) or "f" (function)          *)
 (*               refs  set of <<i, j>> : the body of item i mentions j     *)
 (*               ctx   items whose body reads a context variable           *)
+(*               ty    ty[i] = value type of constant i ("i32" for a       *)
+(*                     function: functions take and return i32)            *)
 (* vals      : constant id -> stored value, for the constants evaluated    *)
 (* order     : history: the constants in the order they were evaluated     *)
 (* rejected  : compilation ended with an error                             *)
@@ -22,7 +24,9 @@
 (* constant is compiled and run (src/codegen/mod.rs, ItemKind::Constant),  *)
 (* Reject = find_compilation_order returns an error                        *)
 (* (src/typechecker/value_cycle.rs), Done = FileTree::compile returns Ok,  *)
-(* Call / Get = a function of the compiled package is called.              *)
+(* Call / Get / GetV / Mut = a function of the compiled package is called   *)
+(* (Mut: src/lir/lower.rs, the mir::Value::Constant arm of assign: a read  *)
+(* clones from the stored value into the destination).                     *)
 (*                                                                         *)
 (* The order among independent constants is left open by the manual, so    *)
 (* EvalConst is nondeterministic there.                                    *)
@@ -37,6 +41,38 @@
 (* `fj(n - 1)` (in a function) for a function; the host function           *)
 (* mark(k, s) returns MarkVal(k, s).  Functions may be recursive; the      *)
 (* fuel argument makes every call terminate.                               *)
+(*                                                                         *)
+(* Value types.  The rule "evaluated exactly once" does not depend on what *)
+(* a constant holds, and "every function observes that one value" has to   *)
+(* hold for every kind of value, so the type of a constant is a dimension  *)
+(* of the script: g.ty[i] \in Types.  The initialiser of constant k still  *)
+(* calls mark(k, s) exactly once (for a type without any information the   *)
+(* host function is `marku`, which returns nothing) and builds the stored  *)
+(* value Store(ty, v) from the number v that mark returned:                *)
+(*    i32   v                      bool  v is odd                          *)
+(*    unit  ()                     erec  E0 {}          (no fields)        *)
+(*    urec  U2 { u: (), w: () }    rec2  P2 { a: v, b: B(v) }              *)
+(*    opt   Some(v) if v is odd, None otherwise          (i32?)            *)
+(*    nest  N3 { p: P2 { a: v, b: B(v) }, c: B(B(v)) }                     *)
+(*    str   the decimal numeral of v                     (String)          *)
+(*    list  [v]                                          (List[i32])       *)
+(* A reference to a constant of type t contributes Num(t, value) to the    *)
+(* sum of the referencing item (0 for the types that carry nothing: the    *)
+(* reference is still a dependency).  Flat(t, value) is the sequence of    *)
+(* numbers a typed getter shows.                                           *)
+(*                                                                         *)
+(* Copies.  Roto has value semantics: reading a constant gives the reader  *)
+(* its OWN copy.  Locals and parameters are mutable, so a function may     *)
+(* change its copy (assign the whole variable, one field, a field of a     *)
+(* field, through a callee that assigns to its parameter, ...): Mut.  The  *)
+(* stored value of the constant is not affected: every later read - by     *)
+(* the same function, by any other function of any module, by a function   *)
+(* of the graph - still gives the stored value.  The one exception is      *)
+(* stated, not avoided: a List is a handle to one shared growable array    *)
+(* (property C15), the copy of a list constant is a second handle to the   *)
+(* SAME array, so a push through the copy is visible through the constant  *)
+(* and through every other copy; assigning another list to the copy only   *)
+(* rebinds the copy.                                                       *)
 (***************************************************************************)
 EXTENDS Naturals, Sequences, FiniteSets, TLC
 
@@ -63,6 +99,88 @@ Cyclic(c)    == c \in Reach(c)
 BadConst(c)  == Cyclic(c) \/ UsesCtx(c)
 Bad          == \E c \in Consts : BadConst(c)
 
+(* ------------------------------ value types ----------------------------- *)
+Types     == {"i32", "bool", "unit", "erec", "urec", "rec2", "opt", "nest", "str", "list"}
+ZeroSized == {"unit", "erec", "urec"}      \* values without any information (size 0)
+Shared    == {"list"}                      \* copies are handles to the same object
+
+B(v) == (v + 1) % Modulus
+
+(* the value the initialiser builds from the number v returned by mark *)
+Store(t, v) ==
+    CASE t = "i32"        -> v
+      [] t = "bool"       -> (v % 2 = 1)
+      [] t \in ZeroSized  -> <<>>
+      [] t = "rec2"       -> [a |-> v, b |-> B(v)]
+      [] t = "opt"        -> IF v % 2 = 1 THEN <<v>> ELSE <<>>
+      [] t = "nest"       -> [p |-> [a |-> v, b |-> B(v)], c |-> B(B(v))]
+      [] t = "str"        -> v
+      [] t = "list"       -> <<v>>
+
+RECURSIVE SeqSum(_)
+SeqSum(q) == IF q = <<>> THEN 0 ELSE Head(q) + SeqSum(Tail(q))
+
+(* what one reference to a constant of type t with value x adds to a sum *)
+Num(t, x) ==
+    CASE t = "i32"        -> x
+      [] t = "bool"       -> IF x THEN 1 ELSE 0
+      [] t \in ZeroSized  -> 0
+      [] t = "rec2"       -> x.a + x.b
+      [] t = "opt"        -> IF x = <<>> THEN 0 ELSE x[1]
+      [] t = "nest"       -> x.p.a + x.p.b + x.c
+      [] t = "str"        -> x
+      [] t = "list"       -> SeqSum(x)
+
+(* what a typed getter shows: the leaves of the value, in declaration order *)
+Flat(t, x) ==
+    CASE t = "i32"        -> <<x>>
+      [] t = "bool"       -> <<IF x THEN 1 ELSE 0>>
+      [] t \in ZeroSized  -> <<>>
+      [] t = "rec2"       -> <<x.a, x.b>>
+      [] t = "opt"        -> IF x = <<>> THEN <<0>> ELSE <<1, x[1]>>
+      [] t = "nest"       -> <<x.p.a, x.p.b, x.c>>
+      [] t = "str"        -> <<x>>
+      [] t = "list"       -> <<Len(x)>> \o x
+
+(* how a function gets hold of its copy: a local initialised from the      *)
+(* constant, a by-value parameter of a callee, the result of a function    *)
+(* that returns the constant                                               *)
+Vias == {"local", "param", "ret"}
+
+(* the ways a copy of a value of type t can be modified (w is a number):   *)
+(*   whole   q = <a value built like the initialiser does, from w>         *)
+(*   add     q = q + w  (i32),  q.a = q.a + w  (rec2)                      *)
+(*   not     q = !q                                                        *)
+(*   field   q.u = () (urec),  q.b = w (rec2),  q.c = w (nest)             *)
+(*   deep    q.p.b = w          sub   q.p = P2 { a: w, b: B(w) }           *)
+(*   none    q = None           append  q = q.append("<last digit of w>")  *)
+(*   push    q.push(w)    -- the only one that reaches the constant        *)
+Hows(t) ==
+    CASE t = "i32"  -> {"whole", "add"}
+      [] t = "bool" -> {"whole", "not"}
+      [] t = "unit" -> {"whole"}
+      [] t = "erec" -> {"whole"}
+      [] t = "urec" -> {"whole", "field"}
+      [] t = "rec2" -> {"whole", "field", "add"}
+      [] t = "opt"  -> {"whole", "none"}
+      [] t = "nest" -> {"whole", "field", "deep", "sub"}
+      [] t = "str"  -> {"whole", "append"}
+      [] t = "list" -> {"whole", "push"}
+AllHows == UNION {Hows(t) : t \in Types}
+
+(* the copy x after the modification *)
+Apply(t, x, h, w) ==
+    CASE h = "whole"  -> Store(t, w)
+      [] h = "add"    -> IF t = "i32" THEN x + w ELSE [x EXCEPT !.a = @ + w]
+      [] h = "not"    -> ~x
+      [] h = "field"  -> IF t = "urec" THEN x
+                         ELSE IF t = "rec2" THEN [x EXCEPT !.b = w] ELSE [x EXCEPT !.c = w]
+      [] h = "deep"   -> [x EXCEPT !.p.b = w]
+      [] h = "sub"    -> [x EXCEPT !.p = [a |-> w, b |-> B(w)]]
+      [] h = "none"   -> <<>>
+      [] h = "append" -> x * 10 + (w % 10)
+      [] h = "push"   -> Append(x, w)
+
 RECURSIVE SumOver(_, _)
 SumOver(S, F) == IF S = {} THEN 0
                  ELSE LET x == CHOOSE y \in S : TRUE IN F[x] + SumOver(S \ {x}, F)
@@ -71,16 +189,17 @@ SumOver(S, F) == IF S = {} THEN 0
 RECURSIVE FnVal(_, _, _)
 FnVal(f, n, v) ==
     IF n = 0 THEN 0
-    ELSE (SumOver(Succ(f), [j \in Succ(f) |-> IF j \in Consts THEN v[j] ELSE FnVal(j, n - 1, v)])
+    ELSE (SumOver(Succ(f), [j \in Succ(f) |-> IF j \in Consts THEN Num(g.ty[j], v[j]) ELSE FnVal(j, n - 1, v)])
           + (IF f \in g.ctx THEN CtxVal ELSE 0)) % Modulus
 
 (* the second argument the initialiser of constant c passes to mark *)
-RefSum(c, v) == SumOver(Succ(c), [j \in Succ(c) |-> IF j \in Consts THEN v[j] ELSE FnVal(j, Fuel, v)])
+RefSum(c, v) == SumOver(Succ(c), [j \in Succ(c) |-> IF j \in Consts THEN Num(g.ty[j], v[j]) ELSE FnVal(j, Fuel, v)])
 MarkVal(k, s) == (k + 3 * s) % Modulus
 
 TypeOK == /\ g.n \in Nat
           /\ g.refs \subseteq (Nodes \X Nodes)
           /\ g.ctx \subseteq Nodes
+          /\ \A i \in Nodes : g.ty[i] \in Types
           /\ DOMAIN vals \subseteq Consts
           /\ rejected \in BOOLEAN /\ compiled \in BOOLEAN
           /\ ~(rejected /\ compiled)
@@ -97,7 +216,7 @@ EvalConst(c) ==
     /\ c \notin DOMAIN vals
     /\ ConstDeps(c) \subseteq DOMAIN vals
     /\ LET s == RefSum(c, vals) IN
-         /\ vals' = vals @@ (c :> MarkVal(c, s))
+         /\ vals' = vals @@ (c :> Store(g.ty[c], MarkVal(c, s)))
          /\ obs' = [k |-> c, s |-> s]
     /\ order' = Append(order, c)
     /\ UNCHANGED <<g, rejected, compiled>>
@@ -119,12 +238,35 @@ Call(f) ==
     /\ obs' = FnVal(f, Fuel, vals)
     /\ UNCHANGED <<g, vals, order, rejected, compiled>>
 
+(* a function whose body is one reference to the constant (an i32) *)
 Get(c) ==
     /\ compiled /\ c \in Consts
-    /\ obs' = vals[c]
+    /\ obs' = Num(g.ty[c], vals[c])
     /\ UNCHANGED <<g, vals, order, rejected, compiled>>
 
-Next == \/ \E c \in Nodes : EvalConst(c) \/ Call(c) \/ Get(c)
+(* a function that returns the constant as it is *)
+GetV(c) ==
+    /\ compiled /\ c \in Consts
+    /\ obs' = Flat(g.ty[c], vals[c])
+    /\ UNCHANGED <<g, vals, order, rejected, compiled>>
+
+(* A function obtains a copy of constant c (via), modifies the copy (h, w) *)
+(* and then reads the constant again: it shows the modified copy and what  *)
+(* the constant holds after the write.  The stored value does not change   *)
+(* unless the value is a handle to a shared object and the modification    *)
+(* goes through the handle (push on a list).                               *)
+Mut(c, via, h, w) ==
+    /\ compiled /\ c \in Consts
+    /\ via \in Vias /\ h \in Hows(g.ty[c]) /\ w \in Nat
+    /\ LET t      == g.ty[c]
+           copy   == Apply(t, vals[c], h, w)
+           stored == IF t \in Shared /\ h = "push" THEN copy ELSE vals[c]
+       IN /\ vals' = [vals EXCEPT ![c] = stored]
+          /\ obs' = <<Flat(t, copy), Flat(t, stored)>>
+    /\ UNCHANGED <<g, order, rejected, compiled>>
+
+Next == \/ \E c \in Nodes : EvalConst(c) \/ Call(c) \/ Get(c) \/ GetV(c)
+        \/ \E c \in Nodes, via \in Vias, h \in AllHows, w \in 0..(Modulus - 1) : Mut(c, via, h, w)
         \/ Reject
         \/ Done
 
@@ -146,9 +288,16 @@ RejectFirst == /\ rejected => (order = <<>> /\ Bad)
 RECURSIVE EvalAll(_)
 EvalAll(v) == IF DOMAIN v = Consts THEN v
               ELSE LET c == CHOOSE x \in Consts \ DOMAIN v : ConstDeps(x) \subseteq DOMAIN v
-                   IN EvalAll(v @@ (c :> MarkVal(c, RefSum(c, v))))
+                   IN EvalAll(v @@ (c :> Store(g.ty[c], MarkVal(c, RefSum(c, v)))))
 Final == EvalAll(<<>>)
-ValuesAgree == ~Bad => \A c \in DOMAIN vals : vals[c] = Final[c]
+IsPrefixOf(p, q) == Len(p) <= Len(q) /\ \A i \in 1..Len(p) : p[i] = q[i]
+(* ... and never change afterwards, whatever functions do with their       *)
+(* copies; a list constant keeps designating the same list, which only     *)
+(* grows by the pushes made through copies of the handle                   *)
+ValuesAgree == (~Bad /\ DOMAIN vals # {}) =>
+                 LET F == Final
+                 IN \A c \in DOMAIN vals : IF g.ty[c] \in Shared THEN IsPrefixOf(F[c], vals[c])
+                                            ELSE vals[c] = F[c]
 
 Inv == TypeOK /\ Once /\ DepOrder /\ RejectFirst /\ ValuesAgree
 =============================================================================
